@@ -276,6 +276,10 @@ def rule_a(chk: Check, eng: Engine) -> None:
                         "constraints after the first are not evaluated", keyparts="early-exit")
             else:
                 chk.ok("R02-a", ec.fq, lp.lineno, f"loop iterates the whole `{lp.iter.id}` parameter without early exit")
+    for g_ in [x for x in walk_local(ec.node) if isinstance(x, ast.comprehension)]:
+        if isinstance(g_.iter, ast.Name) and g_.iter.id in ec.params():
+            okloop = True
+            chk.ok("R02-a", ec.fq, getattr(g_.iter, "lineno", ec.line), f"comprehension iterates the whole `{g_.iter.id}` parameter")
     if not okloop:
         chk.bad("R02-a", eng.relfile(ec), ec.line, ec.fq, "no loop over the unsliced constraints parameter",
                 "only part of the constraints is evaluated", keyparts="no-full-loop")
@@ -297,15 +301,30 @@ def rule_b(chk: Check, eng: Engine) -> None:
         cfg = eng.cfg(fn)
         # accumulator: the name divided by len(...) after the loop
         acc = None
+        divisors: list[tuple[ast.AST, int]] = []
         for n in walk_local(fn.node):
             if isinstance(n, ast.AugAssign) and isinstance(n.op, ast.Div) and isinstance(n.target, ast.Name) and "len(" in norm(n.value):
                 acc = n.target.id
+                divisors.append((n.value, n.lineno))
         if acc is None:
             for n in walk_local(fn.node):
-                if isinstance(n, ast.BinOp) and isinstance(n.op, ast.Div) and isinstance(n.left, ast.Name) and "len(" in norm(n.right):
-                    acc = n.left.id
-        if acc is None:
-            raise AnalysisError(f"{fn.fq}: normalised accumulator (x / len(constraints)) not found")
+                if isinstance(n, ast.BinOp) and isinstance(n.op, ast.Div) and "len(" in norm(n.right):
+                    divisors.append((n.right, n.lineno))
+                    if isinstance(n.left, ast.Name):
+                        acc = n.left.id
+        if not divisors:
+            raise AnalysisError(f"{fn.fq}: no normalisation by a number of constraints (x / len(...)) found")
+        # the divisor must be the number of *all* constraints of the class, not of the evaluations that went through
+        iter_names = {p for p in fn.params() if "constraint" in p} | {"_soft_constraints", "_hard_constraints", "_repetition_bounds_constraints"}
+        for d, ln in divisors:
+            ok_div = isinstance(d, ast.Call) and call_name(d) == "len" and d.args and (
+                (isinstance(d.args[0], ast.Name) and d.args[0].id in iter_names) or (self_attr(d.args[0]) in iter_names))
+            if ok_div:
+                chk.ok("R02-b", fn.fq, ln, f"normalised by `{short(d)}`: every constraint of the class counts, also one whose evaluation raised")
+            else:
+                chk.bad("R02-b", eng.relfile(fn), ln, fn.fq, f"the mean fitness is taken over `{short(d)}` instead of the number of constraints of the class",
+                        "a constraint whose evaluation raises (or is otherwise left out) no longer lowers the fitness: the tree can reach the threshold although "
+                        "that constraint was never satisfied", keyparts="divisor-not-all-constraints")
         hs = cf.handlers_in_loops(cfg, fn)
         if not hs:
             chk.ok("R02-b", fn.fq, fn.line, "no handler inside the constraint loop: an exception propagates (rejecting the evaluation)")
@@ -316,6 +335,8 @@ def rule_b(chk: Check, eng: Engine) -> None:
             afters = [i for i in cfg.by_ast.get(id(loop), []) if cfg.nodes[i].kind == "join" and cfg.nodes[i].note == "after-loop"]
             tg = set(heads) | set(afters)
             incs = set()
+            if acc is None:
+                continue
             for n in cfg.nodes:
                 if n.kind == "stmt" and n.ast is not None:
                     a = n.ast
@@ -334,16 +355,6 @@ def rule_b(chk: Check, eng: Engine) -> None:
                         path=cfg.describe_path(p) if p else [], keyparts=f"handler-increases|{acc}")
             else:
                 chk.ok("R02-b", fn.fq, h.lineno, f"handler `{cfg.nodes[hn].text()}`: no path to the next iteration increases `{acc}`")
-        # the divisor is the full list length
-        for n in walk_local(fn.node):
-            if isinstance(n, (ast.AugAssign, ast.BinOp)) and isinstance(n.op, ast.Div):
-                d = n.value if isinstance(n, ast.AugAssign) else n.right
-                if "len(" in norm(d):
-                    if isinstance(d, ast.Call) and call_name(d) == "len":
-                        chk.ok("R02-b", fn.fq, n.lineno, f"normalised by `{short(d)}` (every constraint counts)")
-                    else:
-                        chk.bad("R02-b", eng.relfile(fn), n.lineno, fn.fq, f"divisor `{short(d)}` is not the plain number of constraints",
-                                "failed evaluations are not counted against the tree", keyparts="divisor")
 
 
 def rule_c(chk: Check, eng: Engine) -> None:
@@ -844,6 +855,8 @@ _ALG = "src/fandango/evolution/algorithm.py"
 _POP = "src/fandango/evolution/population.py"
 _API = "src/fandango/api.py"
 MUTANTS = [
+    M("mean-over-successful-evaluations", _EV, "                self._checks_made += 1\n            except Exception as e:", "                self._checks_made += 1\n                evaluated = getattr(self, \"_n_eval\", 0) + 1\n            except Exception as e:", "R02-b",
+      more=(("        fitness /= len(constraints)\n        return (", "        fitness /= len(failing_trees) + 1\n        return ("),)),
     M("total-forgets-repetition-bounds", _EV, "            len(self._hard_constraints)\n            + len(self._repetition_bounds_constraints)\n            + len(self._soft_constraints)\n", "            len(self._hard_constraints)\n            + len(self._soft_constraints)\n", "R02-f"),
     M("hard-share-at-least-one", _EV, "            fitness = fitness * len(self._hard_constraints)\n", "            fitness = fitness * max(1, len(self._hard_constraints))\n", "R02-f"),
     M("rep-share-added-unweighted", _EV, "            fitness += rep_fitness * len(self._repetition_bounds_constraints)\n", "            fitness += rep_fitness\n", "R02-f"),
